@@ -11,6 +11,7 @@ D = 'src/decoder.rs'
 DT = 'src/detector.rs'
 
 MUTANTS = [
+    ('types::SourceMap::to_data_url', r'"data:application/json;charset=utf-8;base64,"', '"data:application/json;charset=utf8;base64,"'),
     ('decoder::decode_slice', r'let content = strip_junk_header\(slice\)\?;', 'let content = slice;'),
     ('decoder::decode_data_url', r'decode_slice\(data\.as_slice\(\)\)', 'decode_common(verif_json_from_slice_raw(data.as_slice())?)'),
     ('decoder::decode_data_url', r'verif_strip_either_prefix\(url, DATA_PREAMBLE, DATA_PREAMBLE_CHARSET\)', 'verif_strip_either_prefix(url, DATA_PREAMBLE, DATA_PREAMBLE)'),
@@ -111,3 +112,16 @@ pub struct SourceMapHermes { _x: u8 }
         for g in ['from_reader', 'from_slice']:
             emit_method(u, rel, impl, g, '%s::%s::%s' % (rel.split('/')[-1][:-3], ty, g))
     emit_method(u, T, r'DecodedMap\b', 'from_reader', 'types::DecodedMap::from_reader')
+
+    # the writer of data URLs: its preamble must be one decode_data_url accepts (D12 was a mismatch of the two)
+    def prep_tdu(f):
+        n = f.rewrite(r'\bencode\(self, &mut buf\)', 'verif_encode_sm(self, &mut buf)', expect=1)
+        n += f.rewrite(r'base64_simd::Base64::STANDARD\.encode_to_boxed_str\(&buf\)', 'verif_b64_encode(&buf)', expect=1)
+        n += f.rewrite(r'(?s)format!\(\s*("data:[^"{}]*)\{\}",\s*b64\s*\)', r'verif_format_lit_then(\1", &b64)', expect=1)
+        u.count('R-shim-call', n)
+        # R-type-annot: the element type of the buffer before rustc has inferred it
+        u.count('R-type-annot', f.rewrite(r'let mut buf = vec!\[\];', 'let mut buf: Vec<u8> = vec![];', expect=1))
+        if 'format!' in f.text or 'base64_simd' in f.text:
+            raise LostAnchor('to_data_url: another shape')
+        u.count('R-let-tail', f.rewrite(r'(?s)Ok\((verif_format_lit_then\(.*?&b64\))\)\s*\}\s*$', r'let out__ = \1;\n        Ok(out__)\n    }', expect=1))
+    emit_method(u, T, r'SourceMap\b', 'to_data_url', 'types::SourceMap::to_data_url', prep=prep_tdu)
